@@ -325,6 +325,11 @@ func (u *Unmarshaler) generateMap(keyType, elemType reflect.Type, mapValue any) 
 		return reflect.ValueOf(mapValue), nil
 	}
 
+	// 文档（JSON/YAML/字典）里的键都是字符串，放不进其他键类型的字典
+	if keyType.Kind() != reflect.String {
+		return emptyValue, errUnsupportedType
+	}
+
 	refValue := reflect.ValueOf(mapValue)
 	targetValue := reflect.MakeMapWithSize(mapType, refValue.Len())
 	fieldElemKind := elemType.Kind()
